@@ -42,13 +42,17 @@ def h_roundtrip(nr, nc, idk, mdk, zeros):
     omd = MD_MENUS[mdk](oids, 'observation')
     smd = MD_MENUS['text' if mdk == 'taxonomy' else mdk](sids, 'sample') if mdk not in ('taxonomy-with-null',) else None
     tid, typ = pick([(None, None), ('my table id', 'OTU table'), (None, 'Metabolite table')], 'table-id/type')
-    gmd = pick([None, {'tree': ('newick', '((a,b),c);')}, {'tree': ('newick', '((a,b),c);'), 'graph': ('json', '{"x": 1}')},
-                {'tree': ('newick', '((\u00e9,\u03b2),\u4e2d);')}], 'group-md')
+    # group metadata per axis: none, observation only, both, SAMPLE ONLY (C01-w7m1: the writer fell back to the sample axis'
+    # entries when the observation axis had none) and an empty dict next to a populated axis
+    _T = {'tree': ('newick', '((a,b),c);')}
+    ogmd, sgmd = pick([(None, None), (_T, None), (dict(_T, graph=('json', '{"x": 1}')), {'rel': ('tsv', 'a\tb')}),
+                       ({'tree': ('newick', '((\u00e9,\u03b2),\u4e2d);')}, None), (None, {'rel': ('tsv', 'a\tb')}),
+                       ({}, {'rel': ('tsv', 'a\tb'), 'tree': ('newick', '(s,t);')})], 'group-md')
     kw = {}
-    if gmd is not None:
-        kw['observation_group_metadata'] = dict(gmd)
-        if len(gmd) > 1:
-            kw['sample_group_metadata'] = {'rel': ('tsv', 'a\tb')}
+    if ogmd is not None:
+        kw['observation_group_metadata'] = dict(ogmd)
+    if sgmd is not None:
+        kw['sample_group_metadata'] = dict(sgmd)
     t = b.Table(m, list(oids), list(sids), omd, smd, table_id=tid, type=typ, **kw)
     if flag('csc-layout'):
         t._data = t._data.tocsc()
